@@ -186,7 +186,7 @@ def main(spec, argv):
             evaluations += sum(1 for i_ in impl if i_.strip() != '(obs (res timeout))')
             # cross-check the extracted checker against the kernel's own evaluation on a few inputs
             k = 6 if tier == 'quick' else 40
-            pairs = sorted([(a, b) for a, b in zip(mi, [m for m in model if m is not None])], key=lambda p: len(p[0]))[:k]
+            pairs = sorted([(a, b) for a, b in zip(mi, [m for m in model if m is not None]) if b.strip() != '(model-timeout)'], key=lambda p: len(p[0]))[:k]
             if pairs:
                 crosschecked += core.cases_v_crosscheck(prop + '_' + tag, [p[0] for p in pairs], [p[1] for p in pairs], cdir, shards=min(6, len(pairs)))
             seen_keys = set()
@@ -195,9 +195,16 @@ def main(spec, argv):
                 counters['note:case-exceeded-time-limit-skipped'] = counters.get('note:case-exceeded-time-limit-skipped', 0) + n_timeout
                 if n_timeout * 10 > len(impl):
                     raise Broken('stream %s: %d of %d cases exceeded the per-case time limit (the implementation has become much slower or hangs)' % (tag, n_timeout, len(impl)))
+            n_mt = sum(1 for m_ in model if m_ is not None and m_.strip() == '(model-timeout)')
+            if n_mt:
+                counters['note:model-exceeded-time-limit-impl-predicates-only'] = counters.get('note:model-exceeded-time-limit-impl-predicates-only', 0) + n_mt
+                if n_mt * 10 > len(model):
+                    raise Broken('stream %s: the model exceeded its per-case time limit on %d of %d cases' % (tag, n_mt, len(model)))
             for c, i_, m_ in zip(cases, impl, model):
                 if i_.strip() == '(obs (res timeout))':
                     continue      # skipped, counted above; never counted as explored
+                if m_ is not None and m_.strip() == '(model-timeout)':
+                    m_ = None     # judged by the implementation-side predicates only
                 if spec.nontrivial(st, c, i_):
                     nontrivial.add(c)
                     if len(samples) < 3:
